@@ -509,6 +509,10 @@ type WithdrawParams struct {
 	NBen    int    `json:"beneficiaries"`
 	Claim   bool   `json:"claim_before_enactment"`
 	DtClaim int64  `json:"seconds_before_claim"`
+	// further inputs of Withdraw.Apply that may change between the dry run and the enactment
+	ExtraDenom   bool  `json:"also_withdraw_ubtc"`                        // a second denom, deposited at the start, claimed away never (rate only in ukex)
+	DepositLater int64 `json:"deposit_between"`                           // the pool is refilled
+	UpdateBens   bool  `json:"update_proposal_removes_beneficiary_first"` // an UpdateSpendingPool proposal enacted just before drops a3 from the beneficiaries
 }
 
 func drawWithdraw(r *hx.Rng, seed uint64, adversarial bool) WithdrawParams {
@@ -517,6 +521,9 @@ func drawWithdraw(r *hx.Rng, seed uint64, adversarial bool) WithdrawParams {
 	if !adversarial {
 		p.Rate, p.DepA, p.Amount, p.Claim = 1, 1_000_000, pickI(r, 100, 1000), r.Chance(30)
 	}
+	p.ExtraDenom = r.Chance(25)
+	p.DepositLater = pickI(r, 0, 0, 0, 700)
+	p.UpdateBens = r.Chance(20)
 	return p
 }
 
@@ -539,21 +546,41 @@ func runWithdraw(p WithdrawParams, ops hx.Counter) []Case {
 		h.Tx("create-spending-pool", 1, mk("wa", 1, p.Rate))
 		h.Tx("create-spending-pool", 4, mk("wb", 4, 1))
 		h.Tx("register-beneficiary", 2, spendingtypes.NewMsgRegisterSpendingPoolBeneficiary("wa", c.Accounts[2].Addr))
-		h.Tx("deposit-spending-pool", 1, spendingtypes.NewMsgDepositSpendingPool("wa", ukex(p.DepA), c.Accounts[1].Addr))
+		depA := ukex(p.DepA)
+		if p.ExtraDenom {
+			depA = depA.Add(sdk.NewInt64Coin("ubtc", 50))
+		}
+		h.Tx("deposit-spending-pool", 1, spendingtypes.NewMsgDepositSpendingPool("wa", depA, c.Accounts[1].Addr))
 		if p.DepB > 0 {
 			h.Tx("deposit-spending-pool", 4, spendingtypes.NewMsgDepositSpendingPool("wb", ukex(p.DepB), c.Accounts[4].Addr))
 		}
 		log = append(log, fmt.Sprintf("a1 (made a network actor by a0) creates pool wa rate=%dukex/s claim_expiry=1000000 (beneficiaries a2,a3), a4 creates pool wb; a2 registers in wa; deposits wa=%d wb=%d", p.Rate, p.DepA, p.DepB))
 	}, nil)
+	wpid := uint64(1)
 	h.Block(BlockReq{Dt: 5}, func() {
 		var bens []string
 		for i := 0; i < p.NBen; i++ {
 			bens = append(bens, c.Accounts[2+i].Addr.String())
 		}
-		msg, _ := govtypes.NewMsgSubmitProposal(c.Accounts[1].Addr, "w", "w", spendingtypes.NewSpendingPoolWithdrawProposal("wa", bens, ukex(p.Amount)))
+		if p.UpdateBens {
+			content := spendingtypes.NewUpdateSpendingPoolProposal("wa", 0, 0, sdk.NewDecCoins(sdk.NewDecCoinFromDec("ukex", sdk.NewDec(p.Rate))), dec("0.5"), 10, 10,
+				spendingtypes.PermInfo{OwnerAccounts: []string{c.Accounts[1].Addr.String()}},
+				spendingtypes.WeightedPermInfo{Accounts: []spendingtypes.WeightedAccount{{Account: c.Accounts[2].Addr.String(), Weight: dec("1")}}}, false, 0)
+			um, _ := govtypes.NewMsgSubmitProposal(c.Accounts[1].Addr, "u", "u", content)
+			if res := h.Tx("submit-proposal", 1, um); res.Code == 0 {
+				h.Tx("vote-proposal", 1, govtypes.NewMsgVoteProposal(1, c.Accounts[1].Addr, govtypes.OptionYes, sdk.ZeroDec()))
+				wpid = 2
+				log = append(log, "a1 submits and approves UpdateSpendingPool(wa, beneficiaries := a2 only), enacted just before the withdraw")
+			}
+		}
+		amts := ukex(p.Amount)
+		if p.ExtraDenom {
+			amts = amts.Add(sdk.NewInt64Coin("ubtc", 20))
+		}
+		msg, _ := govtypes.NewMsgSubmitProposal(c.Accounts[1].Addr, "w", "w", spendingtypes.NewSpendingPoolWithdrawProposal("wa", bens, amts))
 		res := h.Tx("submit-proposal", 1, msg)
-		log = append(log, fmt.Sprintf("a1 submits SpendingPoolWithdraw(wa, %d beneficiaries, %dukex each) code=%d", p.NBen, p.Amount, res.Code))
-		res = h.Tx("vote-proposal", 1, govtypes.NewMsgVoteProposal(1, c.Accounts[1].Addr, govtypes.OptionYes, sdk.ZeroDec()))
+		log = append(log, fmt.Sprintf("a1 submits SpendingPoolWithdraw(wa, %d beneficiaries, %s each) code=%d", p.NBen, amts, res.Code))
+		res = h.Tx("vote-proposal", 1, govtypes.NewMsgVoteProposal(wpid, c.Accounts[1].Addr, govtypes.OptionYes, sdk.ZeroDec()))
 		log = append(log, fmt.Sprintf("a1 votes yes code=%d", res.Code))
 	}, nil)
 	h.Block(BlockReq{Dt: p.DtClaim}, func() {
@@ -561,13 +588,18 @@ func runWithdraw(p WithdrawParams, ops hx.Counter) []Case {
 			res := h.Tx("claim-spending-pool", 2, spendingtypes.NewMsgClaimSpendingPool("wa", c.Accounts[2].Addr))
 			log = append(log, fmt.Sprintf("%ds later a2 claims from wa code=%d", p.DtClaim, res.Code))
 		}
+		if p.DepositLater > 0 {
+			h.Tx("deposit-spending-pool", 4, spendingtypes.NewMsgDepositSpendingPool("wa", ukex(p.DepositLater), c.Accounts[4].Addr))
+			log = append(log, fmt.Sprintf("a4 deposits %dukex into wa", p.DepositLater))
+		}
 	}, nil)
 	var out []Case
 	for b := 0; b < 3 && !h.Halted; b++ {
 		var site string
 		var sj interface{}
 		h.Block(BlockReq{Dt: 11}, nil, func(ctx sdk.Context) {
-			due := proposalDue(ctx, c, 1)
+			// the one-denom model applies when only ukex is withdrawn and no update proposal changes the pool in this EndBlock
+			due := proposalDue(ctx, c, wpid) && !p.ExtraDenom && !p.UpdateBens
 			mod := c.App.BankKeeper.GetBalance(ctx, abci.ModuleAddr(spendingtypes.ModuleName), "ukex").Amount
 			pb := poolBal(ctx, c, "wa")
 			site = fmt.Sprintf("(SWithdraw %s %s %s %s %d)", hx.B(due), hx.ZInt(mod), hx.ZInt(pb), hx.Z(p.Amount), p.NBen)
@@ -589,10 +621,10 @@ type DistributionParams struct {
 	Dts           []int64 `json:"block_dts"`
 	Dynamic       bool    `json:"dynamic_rate"`
 	DynPeriod     uint64  `json:"dynamic_rate_period"`
-	ClaimStartRel int64   `json:"claim_start_seconds_after_creation"` // 0 = claim_start 0
-	ClaimEndRel   int64   `json:"claim_end_seconds_after_creation"`   // 0 = no claim end
+	ClaimStartRel int64   `json:"claim_start_seconds_after_creation"`             // 0 = claim_start 0
+	ClaimEndRel   int64   `json:"claim_end_seconds_after_creation"`               // 0 = no claim end
 	UpdateWeight  string  `json:"weight_set_by_an_update_proposal_enacted_first"` // "" = none
-	RegisterLate  bool    `json:"second_beneficiary_registers_after_submission"`
+	SecondBen     bool    `json:"second_registered_beneficiary"`                  // every beneficiary must be registered at submission, or the dry run fails
 	ClaimBetween  bool    `json:"beneficiary_claims_between"`
 	DepositLater  int64   `json:"deposit_between"`
 }
@@ -613,11 +645,11 @@ func drawDistribution(r *hx.Rng, seed uint64, adversarial bool) DistributionPara
 	p.Dynamic = r.Chance(45)
 	p.DynPeriod = pickU(r, 1, 5, 20, 60)
 	p.ClaimStartRel = pickI(r, 0, 0, 2, 40)
-	p.ClaimEndRel = pickI(r, 0, 0, 15, 25, 35, 60, 600)
+	p.ClaimEndRel = pickI(r, 0, 0, 10, 10, 15, 25, 35, 60, 600)
 	if adversarial {
 		p.UpdateWeight = pickS(r, "", "", "-1", "1000", "0.000000000000000001")
 	}
-	p.RegisterLate = r.Chance(25)
+	p.SecondBen = r.Chance(25)
 	p.ClaimBetween = r.Chance(35)
 	p.DepositLater = pickI(r, 0, 0, 1, 100000)
 	return p
@@ -631,7 +663,11 @@ func runDistribution(p DistributionParams, ops hx.Counter) []Case {
 	var cstart, cend uint64
 	owners := spendingtypes.PermInfo{OwnerAccounts: []string{a1.String()}}
 	bens := func(w string) spendingtypes.WeightedPermInfo {
-		return spendingtypes.WeightedPermInfo{Accounts: []spendingtypes.WeightedAccount{{Account: a2.String(), Weight: dec(w)}, {Account: a3.String(), Weight: dec("1")}}}
+		wp := spendingtypes.WeightedPermInfo{Accounts: []spendingtypes.WeightedAccount{{Account: a2.String(), Weight: dec(w)}}}
+		if p.SecondBen {
+			wp.Accounts = append(wp.Accounts, spendingtypes.WeightedAccount{Account: a3.String(), Weight: dec("1")})
+		}
+		return wp
 	}
 	rates := sdk.NewDecCoins(sdk.NewDecCoinFromDec("ukex", sdk.NewDec(p.Rate)))
 	h.Block(BlockReq{Dt: 5}, func() {
@@ -647,12 +683,12 @@ func runDistribution(p DistributionParams, ops hx.Counter) []Case {
 		makeActor(h, 1)
 		h.Tx("create-spending-pool", 1, msg)
 		h.Tx("register-beneficiary", 2, spendingtypes.NewMsgRegisterSpendingPoolBeneficiary("dd", a2))
-		if !p.RegisterLate {
-			// a3 stays unregistered unless it registers late: an unregistered beneficiary makes Distribution.Apply return an error
+		if p.SecondBen {
+			h.Tx("register-beneficiary", 3, spendingtypes.NewMsgRegisterSpendingPoolBeneficiary("dd", a3))
 		}
 		h.Tx("deposit-spending-pool", 1, spendingtypes.NewMsgDepositSpendingPool("dd", ukex(p.Deposit), a1))
-		log = append(log, fmt.Sprintf("a1 (made a network actor by a0) creates pool dd rate=%dukex/s dynamic=%v period=%d claim_start=%d claim_end=%d (creation time %d) claim_expiry=%d beneficiaries a2 weight=%s, a3 weight=1; a2 registers; a1 deposits %dukex",
-			p.Rate, p.Dynamic, p.DynPeriod, cstart, cend, now, p.Expiry, p.Weight, p.Deposit))
+		log = append(log, fmt.Sprintf("a1 (made a network actor by a0) creates pool dd rate=%dukex/s dynamic=%v period=%d claim_start=%d claim_end=%d (creation time %d) claim_expiry=%d beneficiaries a2 weight=%s (+ a3 weight 1 registered: %v); a2 registers; a1 deposits %dukex",
+			p.Rate, p.Dynamic, p.DynPeriod, cstart, cend, now, p.Expiry, p.Weight, p.SecondBen, p.Deposit))
 	}, nil)
 	distPid := uint64(1)
 	h.Block(BlockReq{Dt: p.DtSubmit}, func() {
@@ -678,10 +714,6 @@ func runDistribution(p DistributionParams, ops hx.Counter) []Case {
 		var sj interface{}
 		h.Block(BlockReq{Dt: p.Dts[b]}, func() {
 			if b == 0 {
-				if p.RegisterLate {
-					res := h.Tx("register-beneficiary", 3, spendingtypes.NewMsgRegisterSpendingPoolBeneficiary("dd", a3))
-					log = append(log, fmt.Sprintf("a3 registers after the submission code=%d", res.Code))
-				}
 				if p.ClaimBetween {
 					res := h.Tx("claim-spending-pool", 2, spendingtypes.NewMsgClaimSpendingPool("dd", a2))
 					log = append(log, fmt.Sprintf("a2 claims between submission and enactment code=%d", res.Code))
